@@ -29,6 +29,12 @@ def make_cases(ctx: Ctx):
         Dz = float(r.choice([0.0, 1e-5, 1e-3, 0.05])) if k % 3 else 0.0
         gs = trk.grid_spec(k, land=False, dx=dx, varh=False)
         gs["dx"] = np.full_like(gs["dx"], dx)
+        sub = None
+        if k % 8 == 4:
+            # the metric changes from row to row and the loaded window has different offsets in x and y:
+            # the step must be scaled with the spacing of the particle's own cell
+            gs["dx"] = gs["dx"] * np.array([1.0, 2.0, 4.0, 0.5])[np.arange(gs["dx"].shape[0]) % 4][:, None]
+            sub = [3, gs["imax"] - 2, 1, gs["jmax"] - 2]
         gs["h"] = np.full_like(gs["h"], 4096.0)
         npart = int(r.choice([1, 3, 8]))
         parts = [[float(r.uniform(4, 8)), float(r.uniform(4, 6)), float(r.uniform(100, 1000)), 1, 1] for _ in range(npart)]
@@ -39,6 +45,8 @@ def make_cases(ctx: Ctx):
             draws.append([float(x) for x in r.normal(size=m + 2)])   # two spare numbers: must stay unused
         case = dict(grid=gs, scheme="", dt=dt, D=D, Dz=Dz, cu=[0] * 7, cv=[0] * 7, particles=parts, nsteps=nsteps,
                     draws=draws, dx=dx, k=k)
+        if sub:
+            case["subgrid"] = sub
         if k % 5 == 2:
             # vertical advection in the same run: the random walk comes on top of the advective displacement
             case["vertadv"] = True
@@ -83,13 +91,20 @@ def run(ctx: Ctx):
     cases = make_cases(ctx)
     got = pmap(trk.run_tracker, cases)
     reqs = []
-    for c in cases:
+    def own_dx(c, x, y):
+        """grid spacing of the cell that holds (x, y): the scale of that particle's random step"""
+        return float(c["grid"]["dx"][int(round(y))][int(round(x))])
+
+    for c, g in zip(cases, got):
         rows = []
         npart = len(c["particles"])
+        pos = [(p[0], p[1]) for p in c["particles"]]
         for n in range(c["nsteps"]):
             for k in range(npart):
                 if c["D"] > 0:
-                    rows.append([rat_s(c["D"]), rat_s(float(c["dt"])), rat_s(c["dx"]), rat_s(c["draws"][n][k])])
+                    rows.append([rat_s(c["D"]), rat_s(float(c["dt"])), rat_s(own_dx(c, *pos[k])), rat_s(c["draws"][n][k])])
+            if n < len(g["steps"]) and "error" not in g["steps"][n]:
+                pos = list(zip(g["steps"][n]["X"], g["steps"][n]["Y"]))
         reqs.append(dict(op="diffdisp", cases=rows or [[1, 1, 1, 0]]))
     want = driver(reqs)
     for c, g, w in zip(cases, got, want):
@@ -112,7 +127,7 @@ def run(ctx: Ctx):
             for k in range(npart):
                 ex = ey = ez = 0.0
                 if c["D"] > 0:
-                    coef = math.sqrt(2 * c["D"] * c["dt"]) / c["dx"]       # the property: variance 2 D dt / dx²
+                    coef = math.sqrt(2 * c["D"] * c["dt"]) / own_dx(c, px[k], py[k])       # the property: variance 2 D dt / dx²
                     ex, ey = coef * dr[k], coef * dr[npart + k]
                     mdisp = bits2float(w[wi][1]); wi += 1
                     if s["alive"][k] and abs((s["X"][k] - px[k]) - mdisp) > 1e-12 * (1 + abs(px[k])):
